@@ -27,6 +27,9 @@ func configs(thorough bool) []cfg {
 	if !thorough {
 		return []cfg{
 			{Name: "1share", Shares: 1, Start: 2, Depth: 6, Faults: 1, MaxEpoch: 4},
+			// deeper, fault-free: remove / re-add / sign histories of length 7 (re-registration
+			// inside one epoch followed by a clock advance needs 7 ops)
+			{Name: "1share-deep-no-faults", Shares: 1, Start: 2, Depth: 7, Faults: 0, MaxEpoch: 4},
 		}
 	}
 	return []cfg{
